@@ -21,7 +21,7 @@ from mc import env
 from mc.core import Out, drive
 
 NON200 = {"E4XX_LEN": 404, "E5XX_LEN": 500, "E5XX_NOLEN": 500, "BODILESS": 204, "E4XX_BIN": 404, "E500_JSONCT": 500, "E204_LEN": 204, "E4XX_BIGUTF8": 403,
-          "E599_NOREASON": 599, "E520_BLANKREASON": 520, "E404_NOREASON": 404, "E299_OK": 299}
+          "E599_NOREASON": 599, "E520_BLANKREASON": 520, "E404_NOREASON": 404, "E299_OK": 299, "E302_LEN": 302}
 URLS = {"tcp": "http://peer.test:8080/rpc?x=1", "unix": "unix+http://./sock", "unix-rel": "unix+http:run/rel.sock"}
 
 
@@ -160,7 +160,7 @@ def _run_sequence(peer, seq, transport, kind, states, viols, classes, positions,
                         want_url = {"tcp": "peer.test:8080/rpc?x=1", "unix": "./", "unix-rel": "/"}[transport]
                         if not str(ex.url).endswith("/rpc?x=1") and transport == "tcp" or (transport == "tcp" and "peer.test:8080" not in str(ex.url)):
                             viols.append(("C19/TransportError-wrong-url", "url %r, expected host+handler %r" % (ex.url, want_url)))
-            if last in NON200 and res[0] == "val" and kind != "notify":
+            if last in NON200 and res[0] == "val":
                 viols.append(("C19/non-200-not-raised", "sequence %r (%s, %s): call %d got %s and returned %r" % (seq, transport, kind, c.n, last, res[2])))
             if not in_script:
                 tail += 1
